@@ -112,6 +112,16 @@ def gen_ops(tier, rng):
             ops.append((f"api {fam} {d} {p} split {n} {c}", {"cat": "split"}))
         for each in [-1, 0, 1, 64, 100]:
             ops.append((f"api {fam} {d} {p} alloc {each}", {"cat": "alloc"}))
+    # stream calls whose readers / writers fail, sequential and concurrent I/O, under the watchdog: a documented error,
+    # never a hang or a leaked goroutine (the fault grammar and the model's answers are C15's)
+    from . import c15
+    import random as _r
+    sub = _r.Random(rng.randrange(1 << 30))
+    faults = [o for o in c15.gen_ops("quick", sub) if o[0].split()[0] in ("sencode", "sverify", "srecon") and o[1].get("f") == 1]
+    conc = [o for o in faults if o[0].split()[-2] == "c" and " w:" in o[0]]
+    pick = sub.sample(conc, min(len(conc), 250 if tier == "quick" else 2000)) + sub.sample(faults, min(len(faults), 150 if tier == "quick" else 2000))
+    for (line, meta) in pick:
+        ops.append(("guard " + line, {"cat": "stream-" + meta["cat"]}))
     return ops
 
 
